@@ -134,7 +134,7 @@ def run_case(case, stats):
         try:
             nontrivial = False
 
-            def run_program(envx, leavesx, label):
+            def run_program(envx, leavesx, label, orig_rels=None):
                 nonlocal nontrivial
                 memo = {}
                 ev_multi(prog, leavesx, memo=memo)
@@ -159,6 +159,26 @@ def run_case(case, stats):
                         raise Violation("call-raised", f"{what}: {type(e).__name__}: {e}", sig=exc_sig(e))
                     rels[id(node)] = res
                     check_locked(res, index, what)
+                    if orig_rels is not None:
+                        # re-applying the operation of the original relation to these (equal, but distinct) operands
+                        # must build on *these* operands - their locked nodes, their payloads
+                        from lsst.daf.relation import BinaryOperationRelation, UnaryOperationRelation
+
+                        orig = orig_rels.get(id(node))
+                        kids = [orig_rels.get(id(c)) for c in children(node)]
+                        direct = (
+                            isinstance(orig, UnaryOperationRelation) and len(kids) == 1 and orig.target is kids[0]
+                        ) or (isinstance(orig, BinaryOperationRelation) and len(kids) == 2 and orig.lhs is kids[0] and orig.rhs is kids[1])
+                        if direct and all(o.engine is orig.engine for o in ops):
+                            try:
+                                again = orig.reapply(*ops)
+                            except Exception as e:
+                                if not (is_order_loss(e) or isinstance(e, (ColumnError, EngineError))):
+                                    raise Violation("call-raised", f"reapply of {what}: {type(e).__name__}: {e}", sig=exc_sig(e))
+                                again = None
+                            if again is not None:
+                                check_locked(again, index, f"reapply() of the original relation to the operands of {what}")
+                                stats.c["reapply-to-twin-operands"] += 1
                     stats.c["calls_checked"] += 1
                     # transfer to the relation's own engine: original content, same engine
                     try:
@@ -182,6 +202,38 @@ def run_case(case, stats):
                         src = peel_same_engine_markers(ops[0])
                         if isinstance(src, (LeafRelation, Materialization)) and count_mats(res) != count_mats(ops[0]):
                             raise Violation("materialization-added", f"materialized() of a {type(src).__name__} added a Materialization node: {str(res)[:200]}; call {what}")
+                    if node[0] != "mat":
+                        # probe: materializing whatever was just built keeps its columns, and adds no materialization
+                        # when the relation is (through same-engine markers) a leaf or a materialization
+                        try:
+                            probe = res.materialized(f"probe{len(rels)}")
+                        except Exception as e:
+                            if not (is_order_loss(e) or isinstance(e, (ColumnError, EngineError))):
+                                raise Violation("call-raised", f"materialized() of {what}: {type(e).__name__}: {e}", sig=exc_sig(e))
+                            probe = None
+                        if probe is not None:
+                            if set(probe.columns) != set(res.columns):
+                                raise Violation("materialize-changed-content", f"materialized() returned columns {set(probe.columns)} for a relation with columns {set(res.columns)}: {str(res)[:200]} -> {str(probe)[:200]}")
+                            check_locked(probe, locked_index(res), f"materialized() of {what}")
+                            src = peel_same_engine_markers(res)
+                            if isinstance(src, (LeafRelation, Materialization)) and count_mats(probe) != count_mats(res):
+                                raise Violation("materialization-added", f"materialized() of a {type(src).__name__} added a Materialization node: {str(probe)[:200]}; relation {what}")
+                            stats.c["materialize-probes"] += 1
+                    if node[0] == "mat":
+                        # materializing (also when it simplifies to nothing) keeps columns and content
+                        from vf.core.prog import schema as _schema
+
+                        if set(res.columns) != set(_schema(node, leavesx)):
+                            raise Violation("materialize-changed-content", f"materialized() returned columns {set(res.columns)}, the operand has {set(_schema(node, leavesx))}; call {what}")
+                        try:
+                            got = execute_processed(envx, make_processor(envx).process(res))
+                        except Exception:
+                            got = None  # C07 / C08
+                        if got is not None:
+                            bad = compare(memo[id(node)], got)
+                            if bad:
+                                raise Violation("materialize-changed-content", f"{bad}; result {str(res)[:200]}; call {what}")
+                            stats.c["materializations_compared"] += 1
                     if node[0] == "mat":
                         # histories: the tree is processed (its materializations gain payloads), then more is built
                         # directly on the locked node - it must stay the identical, payload-sharing object
@@ -233,14 +285,15 @@ def run_case(case, stats):
                         if node[1][0] == "xfer":
                             stats.c["transfer-chain"] += 1
                             nontrivial = True
+                return rels
 
-            run_program(env, leaves, "")
+            rels_first = run_program(env, leaves, "")
             # the same program over twin leaves (same names / columns / engines, other rows, distinct objects): equal
             # relations are not interchangeable - a locked node found by name must be the operand's own object
             leaves2 = twin_leaves(leaves)
             tw = env.twin(leaves2)
             try:
-                run_program(tw, leaves2, "[twin leaves] ")
+                run_program(tw, leaves2, "[twin leaves] ", rels_first)
                 stats.c["twin-programs"] += 1
             finally:
                 tw.close_tables()
